@@ -1143,7 +1143,7 @@ class MainTransformer(object):
                 if virtual_annotation:
                     invoker_name = virtual_annotation[0]
                     matched = False
-                    for vfunc in parent.virtual_methods:
+                    for vfunc in getattr(parent, 'virtual_methods', []):
                         if vfunc.name == invoker_name:
                             matched = True
                             vfunc.invoker = node.name
